@@ -9,6 +9,16 @@ use serde_json::{json, Value};
 
 pub fn dump(thorough: bool, dir: &str, mut whole: Vec<Value>) -> i32 {
     std::fs::create_dir_all(dir).unwrap();
+    // the schema is generated twice, with the schemas of the component types generated in between: a program that asks
+    // for several schemas must get the same registry schema every time
+    let first = schemars::schema_for!(PortableRegistry);
+    std::fs::write(format!("{dir}/schema_first.json"), serde_json::to_string(&first).unwrap()).unwrap();
+    let _ = schemars::schema_for!(scale_info::PortableType);
+    let _ = schemars::schema_for!(scale_info::Type<scale_info::form::PortableForm>);
+    let _ = schemars::schema_for!(scale_info::TypeDef<scale_info::form::PortableForm>);
+    let _ = schemars::schema_for!(scale_info::Field<scale_info::form::PortableForm>);
+    let _ = schemars::schema_for!(scale_info::Variant<scale_info::form::PortableForm>);
+    let _ = schemars::schema_for!(scale_info::Path<scale_info::form::PortableForm>);
     let schema = schemars::schema_for!(PortableRegistry);
     std::fs::write(format!("{dir}/schema.json"), serde_json::to_string(&schema).unwrap()).unwrap();
     let mut regs = regspace::registries(thorough);
